@@ -49,20 +49,35 @@ FAULTS = ["pins-do-not-fit", "wire-too-thick", "clad-too-thick", "zero-pin-pitch
           "flow-gap-no-bypass", "zero-core-length", "odd-duct-values", "zero-step-request"]
 
 
-def inject(rng, case, fault):
-    """returns a single-fault perturbation of a valid case (or None if not applicable)"""
+GEOMETRY_FAULTS = ["wire-too-thick", "clad-too-thick", "zero-pin-pitch", "negative-pin-diameter", "zero-duct-ftf", "odd-duct-values"]
+
+
+NEAR_FAULTS = ["wire-too-thick", "clad-too-thick", "duct-ge-pitch", "pins-do-not-fit"]
+
+
+def inject(rng, case, fault, lowfid=False, near=False, excess=0.01):
+    """returns a single-fault perturbation of a valid case (or None if not applicable); lowfid: the assembly type that
+    receives the fault is first switched to the low-fidelity (no pin bundle) model, which keeps the case valid; near: the
+    violated limit is exceeded by 1 % only (a later stage that happens to stumble over a grossly wrong value does not help)"""
     c = copy.deepcopy(case)
     tn = rng.choice(list(c['types']))
     t = c['types'][tn]
+    if lowfid:
+        if t.get('use_low_fidelity_model'):
+            return None
+        gi.make_low_fidelity(rng, c, tn)
     if fault == "pins-do-not-fit":
         if t.get('use_low_fidelity_model'):
             return None
-        t['pin_pitch'] *= 1.5
-        t['wire_diameter'] = min(t['wire_diameter'], (t['pin_pitch'] - t['pin_diameter']) * 0.5)
+        if near:      # bundle flat-to-flat 0.5 % larger than the inner duct
+            t['pin_pitch'] = ((1.0 + excess / 2) * min(t['duct_ftf']) - t['pin_diameter'] - 2 * t['wire_diameter']) / (3 ** 0.5 * (t['num_rings'] - 1))
+        else:
+            t['pin_pitch'] *= 1.5
+            t['wire_diameter'] = min(t['wire_diameter'], (t['pin_pitch'] - t['pin_diameter']) * 0.5)
     elif fault == "wire-too-thick":
-        t['wire_diameter'] = (t['pin_pitch'] - t['pin_diameter']) * 1.5
+        t['wire_diameter'] = (t['pin_pitch'] - t['pin_diameter']) * (1.0 + excess if near else 1.5)
     elif fault == "clad-too-thick":
-        t['clad_thickness'] = t['pin_diameter'] * 0.7
+        t['clad_thickness'] = t['pin_diameter'] * (0.5 * (1.0 + excess) if near else 0.7)
     elif fault == "zero-pin-pitch":
         t['pin_pitch'] = 0.0
     elif fault == "negative-pin-diameter":
@@ -70,7 +85,7 @@ def inject(rng, case, fault):
     elif fault == "zero-duct-ftf":
         t['duct_ftf'][0] = 0.0
     elif fault == "duct-ge-pitch":
-        c['core']['assembly_pitch'] = t['duct_ftf'][-1] * 0.999
+        c['core']['assembly_pitch'] = t['duct_ftf'][-1] * (0.999 if near else 0.9)
     elif fault == "unequal-outer-ducts":
         if len(c['types']) < 2:
             return None
@@ -197,6 +212,25 @@ def model_request(case):
     return " ".join(parts) + " || " + " ".join(bcs)
 
 
+def search_fault(ctx, rng, fault, tries=40):
+    """the reader no longer rejects a fault class its model rejects: look for a member of the class that gets through the whole
+    pipeline (set-up and the first planes) - small excesses over the violated limit, detailed and low-fidelity types"""
+    for k in range(tries):
+        case = valid_case(rng)
+        bad = inject(rng, case, fault, lowfid=k % 2 == 1, near=True, excess=[0.001, 0.01, 0.03, 0.1][(k // 2) % 4])
+        if bad is None:
+            continue
+        cls, detail, computed = classify(bad, str(ctx.work / "search"))
+        ctx.evals += 1
+        ctx.count("search:%s:%s" % (fault, cls))
+        if cls == "accepted" or computed:
+            ctx.violation("c18-invalid-accepted:%s" % fault, "an input with the fault '%s' is %s" % (
+                fault, "accepted and swept" if cls == "accepted" else "rejected only after temperatures were computed"),
+                case=bad, fault=fault)
+            return True
+    return False
+
+
 MODELLED = {"pins-do-not-fit", "wire-too-thick", "clad-too-thick", "zero-pin-pitch", "negative-pin-diameter", "zero-duct-ftf",
             "duct-ge-pitch", "unequal-outer-ducts", "missing-bc", "negative-flowrate", "flow-gap-no-bypass", "zero-core-length",
             "odd-duct-values"}
@@ -225,10 +259,14 @@ def run(ctx):
             reqs.append(model_request(case))
             expect.append(("valid", cls, detail, None))
         faults = FAULTS if (ctx.thorough or ci < 2) else rng.sample(FAULTS, 6)
-        for fault in faults:
-            bad = inject(rng, case, fault)
+        plan = [(f, False, False) for f in faults] + [(f, True, False) for f in faults if f in GEOMETRY_FAULTS]
+        plan += [(f, lf, True) for f in faults if f in NEAR_FAULTS for lf in (False, True)]
+        for fault, lowfid, near in plan:
+            bad = inject(rng, case, fault, lowfid, near)
             if bad is None:
                 continue
+            if lowfid:
+                ctx.count("fault-on-low-fidelity-type:" + fault)
             cls, detail, computed = classify(bad, str(ctx.work / ("f%d" % ci)))
             ctx.evals += 1
             ctx.count("fault:%s:%s" % (fault, cls))
@@ -249,13 +287,19 @@ def run(ctx):
                             types={k: v['num_rings'] for k, v in case['types'].items()}))
     if ok_driver and reqs:
         bad = 0
+        searched = set()
         for rep, (fault, cls, detail, c) in zip(modelio.ask(reqs), expect):
             m = rep.split()[0]
             # the model covers the numeric layer only: whenever the model rejects, the reader must reject;
             # when the model accepts a *valid* case the reader may still reject for reasons outside the model
-            if m == "rejected" and cls != "rejected":
+            if m == "rejected" and (cls != "rejected" or detail != "read"):
+                # the model is a model of the READER's numeric checks: what it rejects the reader must reject
                 bad += 1
-                ctx.problem("correspondence", "Model.Accept vs DASSH_Input", "model rejects (%s) but the reader says %s for fault %s" % (rep, cls, fault))
+                ctx.problem("correspondence", "Model.Accept vs DASSH_Input", "model rejects (%s) but the real code says %s at stage "
+                            "'%s' for fault %s" % (rep, cls, detail, fault))
+                if fault not in searched:
+                    searched.add(fault)
+                    search_fault(ctx, rng, fault)
             if m == "accepted" and fault in MODELLED and cls == "rejected" and detail == "read":
                 # the fault is in the modelled layer, the model must reject it too
                 bad += 1
